@@ -372,7 +372,7 @@ def run_chunk(chunk):
                 idx += 1
                 mt = assign_heads(sh, choice, extra_hd=(idx % 3 == 0))
                 j = mt.to_json()
-                orders = (None, 'rev', 'export') if chunk.get('tier') == 'thorough' else ((None, 'rev', 'export')[idx % 3],)
+                orders = (None, 'rev', 'export', 'written') if chunk.get('tier') == 'thorough' else ((None, 'rev', 'export', 'written')[idx % 4],)
                 for ra, order in itertools.product((False, True), orders):
                     vs, disc = check_one(j, ra, order)
                     res.evals += 1
